@@ -330,3 +330,15 @@ def encode_scase(tr, max_legs=None):
 
 SAMPLING_HEADER = ("Require Import JF.Base.F64 JF.Model.Kinematics JF.Model.Sampling.\n"
                    "From Coq Require Import ZArith.")
+
+
+def encode_ccase(tr, max_legs=None):
+    k = encode_kcase(tr, max_legs)
+    if k is None or tr["meta"]["number_of_node_levels"] < 2:
+        return None
+    ws = C.coq_list(["(%s, %s)" % (coq_nat_list(u["id"]), fbz(u["w"])) for u in tr["init_state"]])
+    return "{| cc_k := %s; cc_w := %s |}" % (k, ws)
+
+
+COMPOSITE_HEADER = ("Require Import JF.Base.F64 JF.Model.Kinematics JF.Model.Composite.\n"
+                    "From Coq Require Import ZArith.")
